@@ -1,6 +1,6 @@
 #!/bin/bash
 # run the repository's suite (feature off) and summarise: "passed=N failed=M"
-cd /repo && cargo test --workspace --no-fail-fast --offline 2>&1 | tee /tmp/repo_tests.log | grep -E "^test result|FAILED|panicked" | head -20
+cd /repo && cargo test --workspace --no-fail-fast --offline </dev/null 2>&1 | tee /tmp/repo_tests.log | grep -E "^test result|FAILED|panicked" | head -20
 p=$(grep -cE "^test .* \.\.\. ok$" /tmp/repo_tests.log); f=$(grep -cE "^test .* \.\.\. FAILED$" /tmp/repo_tests.log)
 echo "passed=$p failed=$f"
 grep -E "^test .* \.\.\. FAILED$" /tmp/repo_tests.log
